@@ -42,6 +42,7 @@ def run(ctx):
             brokerop_lib.run(ctx, "plain", mode, nopts=3, pubqos=(0, 1, 2), timeout=3000)
             brokerop_lib.run(ctx, "sys", mode, nopts=2, timeout=3000)
     scs = scen.c11_churn(rng, "s%d" % ctx.seed, 100 if quick else 1200) + scen.c11_samefilter(rng, "s%d" % ctx.seed, 60 if quick else 600)
+    scs = scen.with_props(rng, scs, prob=0.2)
     rejected, stats = trace_lib.validate(ctx, scs, "c11", invariants=INV)
     ctx.cov["traces_validated_against_impl"] += stats["validated"] + stats["rejected"]
     ctx.cov["evaluations"] += stats["events"]
